@@ -153,9 +153,28 @@ def main():
                                       'conditioned': d2, 'line': lines[i][:4000]})
             else:
                 illcond[0] += 1
+        # Sacramento: how many of these runs satisfy the hypotheses of the guarded theorems
+        # (C10_sacramento_guarded / _budget_guarded): static guards + pre_guard at every step
+        sidx = [i for i, cs in enumerate(cases) if cs['model'] == 'Sacramento' and len(cs['rain']) > 0]
+        sres = run_impl([sactrace_line(cases[i]['ps'], cases[i]['st0'], cases[i]['rain'], cases[i]['pet']) for i in sidx]) if sidx else []
+        for i, l in zip(sidx, sres):
+            tr = parse_sactrace(l)
+            cs = cases[i]
+            sacstat['runs'] += 1
+            if tr is None or kresults_agree(parse_kresult(impl[i]), tr[1]) is not None:
+                sacstat['trace_unavailable'] += 1
+                continue
+            ev = tr[0]
+            static_ok = cs['ps'][7] <= cs['ps'][6] and cs['ps'][5] >= 10.0
+            inv0 = all(v == 0.0 for v in cs['st0'])     # zero state satisfies st_inv; hot starts are not classified
+            if static_ok and ev['preGuard'] < 0 and inv0:
+                sacstat['within_guarded_theorems'] += 1
+            if ev['ratioNeg'] >= 0 or ev['adimcOver'] >= 0 or ev['fracpOver'] >= 0:
+                sacstat['with_guard_violation_event'] += 1
         return finals
 
     illcond = [0]
+    sacstat = {'runs': 0, 'within_guarded_theorems': 0, 'with_guard_violation_event': 0, 'trace_unavailable': 0}
     nmodel, nreg, nknown = {}, {}, {}
     finals = run_and_judge(cases, 's1')
 
@@ -201,10 +220,10 @@ def main():
                      'plus prefix runs (stores observed in mid-run), hot starts from those model-produced states, the corpus witnesses of the known findings and a small malformed stream (short / over-long state vectors, model-vs-code only); every case run through '
                      'sim.Catalog and through the extracted Coq kernel (rtol 1e-9, atol 1e-12*(1+largest parameter/initial store/daily rain); RunoffCoefficient bit-exact) and judged by the '
                      'C10 oracle with tolerance 1e-9*(1+sum rain); non-trivial = T>0 and some rain; distinct = distinct (model, parameters, initial states, series)')
-    c.finish(extra_cov={'cases_per_model': nmodel, 'cases_per_regime': nreg, 'parameter_vectors': len(vecs), 'malformed_cases': len(odd), 'malformed_panics_impl': odd_panics, 'known_finding_cases': nknown, 'ill_conditioned_cases_accepted': illcond[0], 'exhaustive': False},
+    c.finish(extra_cov={'cases_per_model': nmodel, 'cases_per_regime': nreg, 'parameter_vectors': len(vecs), 'malformed_cases': len(odd), 'malformed_panics_impl': odd_panics, 'known_finding_cases': nknown, 'sacramento_theorem_coverage': sacstat, 'ill_conditioned_cases_accepted': illcond[0], 'exhaustive': False},
              assumptions=['theorems are over exact reals (RArith); float round-off is covered only by the tolerance oracle on the implementation outputs',
                           'OCaml libm stands in for Go libm (exp, pow, tanh) in the correspondence run: rtol 1e-9',
-                          'Sacramento: store invariant and water balance are covered by the oracle only (sacramento_c10_partial); oracle failures whose run contains '
+                          'Sacramento: outside the three guards of C10_sacramento_guarded (lzfpm<=lzfsm, lztwm>=10, pre_guard at every step; the number of generated runs inside them is measured in sacramento_theorem_coverage) the store invariant and water balance are covered by the oracle only; oracle failures whose run contains '
                           'one of the two recorded guard violations (ratio < -1 or adimc > uztwm+lztwm; fracp > 1 -- detected by SACTRACE, a copy of the current '
                           'sacramento() regenerated from /repo whose outputs must be bit-identical to sim.Catalog\'s) are reported as KNOWN-FINDING, all others as VIOLATION',
                           'sim.Catalog wrapper (generated Run) is exercised, not modelled, in this check (see C04)'])
